@@ -153,3 +153,57 @@ func zzH_C01_cogroup_refill() {
 	}
 	zz.Assert(j == n, "every key of the large dependency is emitted")
 }
+
+// zzH_C01_cogroup_prefix2: Cogroup over inputs whose key is BOTH columns
+// (Prefixed(.., 2)): the output is the set of distinct (k0, k1) pairs of either
+// input, each exactly once, in strictly increasing lexicographic order. Rows
+// that agree on the first key column only are different keys.
+func zzH_C01_cogroup_prefix2() {
+	ctx := context.Background()
+	a := sliceio.ZZNewModel("a", zz.AnyIntIn("rowsA", 0, 2))
+	b := sliceio.ZZNewModel("b", zz.AnyIntIn("rowsB", 0, 1))
+	a.NoEOFData, b.NoEOFData = true, true
+	op := Cogroup(Prefixed(zzSrc2(), 2), Prefixed(zzSrc2(), 2))
+	zz.Assert(op.NumOut() == 2 && op.Prefix() == 2, "the cogroup of two-column keys has the two key columns")
+	r := op.Reader(0, []sliceio.Reader{a, b})
+	total := len(a.Keys) + len(b.Keys)
+	var k0, k1 []int64
+	var err error
+	for it := 0; it < total+2 && err == nil; it++ {
+		nd := zz.AnyIntIn("dst", 1, 2)
+		out := frame.Make(op, nd, nd)
+		var n int
+		n, err = r.Read(ctx, out)
+		zz.Assert(n >= 0 && n <= nd, "0 <= n <= len(dst)")
+		for i := 0; i < n; i++ {
+			k0 = append(k0, out.Index(0, i).Int())
+			k1 = append(k1, out.Index(1, i).Int())
+		}
+	}
+	zz.Assert(err == sliceio.EOF, "the reader ends with EOF")
+	zz.Reach("cogroup read to EOF")
+	for i := 1; i < len(k0); i++ {
+		zz.Assert(zz.Or(k0[i-1] < k0[i], zz.And(k0[i-1] == k0[i], k1[i-1] < k1[i])), "output keys are strictly increasing in both key columns: sorted, each key once")
+		if k0[i-1] == k0[i] {
+			zz.Reach("two keys that agree on the first key column")
+		}
+	}
+	for _, in := range []*sliceio.ZZModelReader{a, b} {
+		for j := range in.Keys {
+			found := false
+			for i := range k0 {
+				found = zz.Or(found, zz.And(k0[i] == in.Keys[j], k1[i] == in.Vals[j]))
+			}
+			zz.Assert(found, "every input key is emitted")
+		}
+	}
+	for i := range k0 {
+		found := false
+		for _, in := range []*sliceio.ZZModelReader{a, b} {
+			for j := range in.Keys {
+				found = zz.Or(found, zz.And(k0[i] == in.Keys[j], k1[i] == in.Vals[j]))
+			}
+		}
+		zz.Assert(found, "no key is invented")
+	}
+}
